@@ -236,7 +236,9 @@ CHECKS = {
        "separate_def_list, run against the function itself); the argument index itself is derived from the raw line: behind any text and an opening "
        "parenthesis, with any arguments written so far (literals holding commas/parentheses/the other quote, nested calls, sections and constructors "
        "with commas of their own), the backward walk of get_paren_level followed by strip_strings and the comma count gives the number of arguments "
-       "written minus one (C11/Level.v, run against both functions). The models are validated against the "
+       "written minus one (C11/Level.v, run against both functions); the selector of a declaration is read up to its closing parenthesis for every "
+       "text between the parentheses -- nested parentheses, literals holding parentheses and the other quote character -- with a refutation of the "
+       "pinned rule, fixed (C11/ParenMatch.v, run against find_paren_match). The models are validated against the "
        "implementation (recorded add_doc/add_scope/add_variable events; activeParameter of serve_signature). Restating type, selector, attributes, name, "
        "PARAMETER value, documentation, argument order and per-argument declarations is checked by an oracle on generated modules.",
   note="Partial. Trusted: Coq kernel, vm_compute, trace validation, the generator and the normalising comparison. Declaration readers/renderers are oracle-only.",
